@@ -180,7 +180,12 @@ Cat == <<
            << "mid" >>, << "alpha", "zeta" >>),
   (*69*) C(N("Sum", << B("FloorDiv", V("pear"), KI(2)), N("Product", << KI(5), V("apple") >>),
                        N("Product", << KI(7), V("fig") >>) >>),
-           << >>, << "apple", "fig", "pear" >>)
+           << >>, << "apple", "fig", "pear" >>),
+  \* names that differ only in case: ASCII order puts "T" before "a" before "t"; a case-folding
+  \* sort would tie T/t and fall back to a seed-dependent set order
+  (*70*) C(N("Sum", << N("Product", << KI(2), V("T") >>), N("Product", << KI(3), V("t") >>),
+                       N("Product", << KI(5), V("a") >>) >>),
+           << >>, << "T", "a", "t" >>)
 >>
 NCat == Len(Cat)
 CatIds == 1..NCat
